@@ -6,13 +6,19 @@ def gen_forest(rng, budget, depth, max_depth, max_width):
     """ordered forest with at most `budget` nodes; returns (list of trees, nodes used); tree = list of child trees"""
     out = []
     used = 0
-    width = rng.choice([0, 1, 1, 2, 2, 3, 3, 4, 5, 7])
+    width = rng.choice([0, 1, 1, 2, 2, 3, 3, 4, 5, 7, 8, 9, 11, 14, 18])
     width = min(width, max_width)
-    for _ in range(width):
+    # long runs of leaves, sometimes with only the last (or the first) member nested
+    long_run = width >= 8 and rng.random() < 0.6
+    for j in range(width):
         if used >= budget:
             break
         remaining = budget - used - 1
-        if depth + 1 < max_depth and remaining > 0 and rng.random() < 0.55:
+        if long_run:
+            nest = (j == width - 1 and rng.random() < 0.7) or (j == 0 and rng.random() < 0.3)
+        else:
+            nest = rng.random() < 0.55
+        if depth + 1 < max_depth and remaining > 0 and nest:
             kids, k = gen_forest(rng, rng.randint(1, remaining), depth + 1, max_depth, max_width)
         else:
             kids, k = [], 0
@@ -47,6 +53,7 @@ NODE_SPELL = [
     "Pay::clone(&ev(log, {k}))",
     "if true {{ ev(log, {k}) }} else {{ unreachable!() }}",
 ]
+CALLER_LOCALS = ["parent", "node", "last", "temp", "root", "child", "value", "id", "tree", "arena_ref", "current", "prev", "next", "item", "n", "p", "x", "i"]
 ROOT_ID_SPELL = ["rid(log, anchor)", "(rid(log, anchor))", "{ rid(log, anchor) }", "{ let r = rid(log, anchor); r }"]
 
 
@@ -68,6 +75,9 @@ def emit(forest, id_form, rng, decorate):
         if not root and rng.random() < 0.12:
             # type of the expression left to inference (the payload type of the arena decides)
             return "ev(log, %d).into()" % k
+        if rng.random() < 0.15:
+            # the expression mentions a local of the caller with an everyday name (all of them are 0i64)
+            return "ev(log, %d + %s)" % (k, rng.choice(CALLER_LOCALS))
         return rng.choice(NODE_SPELL).format(k=k)
 
     def emit_children(kids, indent):
@@ -123,18 +133,20 @@ def literal_fn(i, lit, anchor_children, free_slots, anchor_inner):
     let mut env = h.begin(%d, %d, %d, %s);
     let anchor = env.anchor;
     let _ = anchor;
-    let root = {
+    let (parent, node, last, temp, root, child, value, id, tree, arena_ref, current, prev, next, item, n, p, x, i) = (0i64, 0i64, 0i64, 0i64, 0i64, 0i64, 0i64, 0i64, 0i64, 0i64, 0i64, 0i64, 0i64, 0i64, 0i64, 0i64, 0i64, 0i64);
+    let _ = (parent, node, last, temp, root, child, value, id, tree, arena_ref, current, prev, next, item, n, p, x, i);
+    let result_root = {
         let log = &env.log;
         let arena = &mut env.arena;
         tree!({ log.borrow_mut().push(ARENA_MARK); &mut *arena }, %s)
     };
-    h.check(%d, env, root, "%s", %d, %s);
+    h.check(%d, env, result_root, "%s", %d, %s);
 }
 """ % (i, i, anchor_children, free_slots, "true" if anchor_inner else "false", lit.src, i, expected, lit.nexpr,
        "true" if lit.id_form else "false")
 
 
-def generate(seed, n_random, systematic_nodes, max_nodes=80, max_depth=7, max_width=7):
+def generate(seed, n_random, systematic_nodes, max_nodes=80, max_depth=7, max_width=18):
     """returns (rust source, list of (index, literal source, expected)) """
     rng = random.Random(seed)
     fns, index = [], []
